@@ -8,6 +8,10 @@ import Krp.Props.C17
 import Krp.Props.C04
 import Krp.Props.C14
 import Krp.Lemmas.HubFrame
+import Krp.Props.C02
+import Krp.Props.C07
+import Krp.Lemmas.Bank
+import Krp.Lemmas.Wiring
 namespace Krp
 open HubSt
 
@@ -79,5 +83,194 @@ theorem C19_rebond_raises_stsei_only (h h' : HubSt) (e : HubEnv) (sender : Addr)
 
 example : ∃ ms, dispatchMsgs { (default : DispSt) with keeperRate := D / 20, stDenom := 0, bDenom := 1 } 104 100 200 = .ok ms :=
   ⟨_, rfl⟩
+
+/-! ### End to end: the whole UpdateGlobalIndex transaction
+
+  The messages an index update can cause, by shape (`Flow`), are closed under handling in a wired
+  system: reward withdrawals, the dispatcher's swap and dispatch, swap-contract calls and their
+  payouts, the dispatcher's transfers, BondRewards, the hub's Delegate messages, the reward
+  contract's index update.  Along that flow no token handler runs, the hub runs only BondRewards,
+  and nobody reconfigures anything. -/
+
+def Flow : Msg → Bool
+  | .withdrawReward d _ => d == hubA
+  | .wasm s t (.disp (.swap _ _)) f => s == hubA && t == dispA && f.isEmpty
+  | .wasm s t (.disp .dispatch) f => s == hubA && t == dispA && f.isEmpty
+  | .wasm s _ (.swapDenom _ _ _ none) _ => s == dispA
+  | .bankSend src _ _ _ => src == swapA || src == dispA
+  | .wasm s t (.hub .bondRewards) _ => s == dispA && t == hubA
+  | .delegate d _ _ => d == hubA
+  | .wasm s t (.reward .updateGlobalIndex) f => s == dispA && t == rewardA && f.isEmpty
+  | _ => false
+
+/-- the wiring the index update relies on (E3) -/
+structure Wired19 (s : Sys) : Prop where
+  hubDisp : s.hub.dispatcher = some dispA
+  dispHub : s.disp.hub = hubA
+  dispRw : s.disp.rewardContract = rewardA
+
+def AllFlow (q : List Msg) : Prop := ∀ m ∈ q, Flow m = true
+
+theorem AllFlow.append {x y : List Msg} (h1 : AllFlow x) (h2 : AllFlow y) : AllFlow (x ++ y) := by
+  intro m hm
+  rcases List.mem_append.mp hm with h | h
+  · exact h1 m h
+  · exact h2 m h
+
+theorem coinMsgs_flow (c : DispSt) (x : Nat) (hh : c.hub = hubA) :
+    (∀ ms, coinMsgsB c dispA x = .ok ms → AllFlow ms) ∧ (∀ ms, coinMsgsSt c dispA x = .ok ms → AllFlow ms) := by
+  constructor
+  · intro ms hx; unfold coinMsgsB at hx; exc_split at hx
+    · intro m hm; cases hm
+    · intro m hm; simp at hm; rcases hm with rfl | rfl <;> rfl
+  · intro ms hx; unfold coinMsgsSt at hx; exc_split at hx
+    · intro m hm; cases hm
+    · intro m hm; simp at hm; subst hm; rfl
+    · intro m hm; simp at hm; rcases hm with rfl | rfl
+      · rfl
+      · simp [Flow, hh]
+
+theorem foldl_allP (P : Msg → Prop) (f : Res (Nat × Nat × List Msg) → Denom → Res (Nat × Nat × List Msg))
+    (hstep : ∀ acc dn v, f acc dn = .ok v → ∃ v0, acc = .ok v0 ∧ ((∀ m ∈ v0.2.2, P m) → ∀ m ∈ v.2.2, P m)) :
+    ∀ (l : List Denom) (acc : Res (Nat × Nat × List Msg)) (v : Nat × Nat × List Msg),
+      l.foldl f acc = .ok v → ∃ v0, acc = .ok v0 ∧ ((∀ m ∈ v0.2.2, P m) → ∀ m ∈ v.2.2, P m) := by
+  intro l
+  induction l with
+  | nil => intro acc v hx; exact ⟨v, hx, id⟩
+  | cons d ds ih =>
+    intro acc v hx
+    simp only [List.foldl_cons] at hx
+    obtain ⟨v1, h1, k1⟩ := ih (f acc d) v hx
+    obtain ⟨v0, h0, k0⟩ := hstep acc d v1 h1
+    exact ⟨v0, h0, fun h => k1 (k0 h)⟩
+
+/-- everything the dispatcher's swap emits is a swap-contract call sent by the dispatcher -/
+theorem dispSwap_shape (c c' : DispSt) (self : Addr) (env : DispEnv) (sender : Addr) (a b : Nat)
+    (ms : List Msg) (hx : dispExec c self env sender (.swap a b) = .ok (c', ms)) :
+    ∀ m ∈ ms, ∃ tg dn am dd fs, m = Msg.wasm self tg (.swapDenom dn am dd none) fs := by
+  simp only [dispExec] at hx
+  exc_norm at hx
+  split at hx
+  · cases hx
+  · split at hx
+    · cases hx
+    · rename_i v hv
+      have hs : ∀ m ∈ v.2.2, ∃ tg dn am dd fs, m = Msg.wasm self tg (.swapDenom dn am dd none) fs := by
+        obtain ⟨v0, h0, k⟩ := foldl_allP (fun m => ∃ tg dn am dd fs, m = Msg.wasm self tg (.swapDenom dn am dd none) fs) _ (by
+          intro acc dn v' hf
+          cases acc with
+          | error e => simp only [] at hf; cases hf
+          | ok v0 =>
+            refine ⟨v0, rfl, fun h0 => ?_⟩
+            simp only [] at hf
+            repeat' (split at hf <;> try (first | cases hf | contradiction))
+            all_goals first
+              | exact h0
+              | (intro m hm
+                 rcases List.mem_append.mp hm with h | h
+                 · exact h0 m h
+                 · simp at h; exact ⟨_, _, _, _, _, h⟩)) _ _ v hv
+        injection h0 with h0; subst h0
+        exact k (fun _ h => by cases h)
+      repeat' (split at hx <;> try (first | cases hx | contradiction))
+      all_goals first
+        | exact hs
+        | (intro m hm
+           rcases List.mem_append.mp hm with h | h
+           · exact hs m h
+           · simp at h; exact ⟨_, _, _, _, _, h⟩)
+
+/-- what the flow's messages do, one at a time: they emit flow messages, keep the wiring, never run a
+    token handler, and the only hub handler they run is BondRewards -/
+theorem flow_step (s s' : Sys) (m : Msg) (subs : List Msg) (w : Wired19 s) (hf : Flow m = true)
+    (hx : s.handle m = .ok (s', subs)) :
+    AllFlow subs ∧ Wired19 s' ∧ s'.bsei = s.bsei ∧ s'.stsei = s.stsei ∧ s'.reg = s.reg ∧
+    (s'.hub = s.hub ∨ ∃ s1 sender funds, m = .wasm sender hubA (.hub .bondRewards) funds ∧
+        s.moveFunds sender hubA funds = .ok s1 ∧ s1.hub = s.hub ∧
+        hubExec s.hub s1.hubEnv sender funds .bondRewards = .ok (s'.hub, subs)) := by
+  have sent := handle_sentBy s s' m subs hx
+  cases handle_touch s s' m subs hx with
+  | none h _ _ hb =>
+    refine ⟨?_, ⟨by rw [h.hub]; exact w.hubDisp, by rw [h.disp]; exact w.dispHub, by rw [h.disp]; exact w.dispRw⟩,
+      h.bsei, h.stsei, h.reg, Or.inl h.hub⟩
+    intro x hx'
+    obtain ⟨t, d, a, he⟩ := hb x hx'
+    subst he; rfl
+  | hub s1 sender funds hm heq h1 hmv hc hx' b t r d g =>
+    subst heq
+    cases hm with
+    | bondRewards =>
+      have hs : sender = dispA := by simpa [Flow] using hf
+      have cfg := (HubSt.bond_frame s.hub s'.hub s1.hubEnv sender funds subs).2.2 (by
+        simp only [hubExec] at hx'; split at hx'
+        · cases hx'
+        · exact hx')
+      have dl : AllFlow subs := by
+        simp only [hubExec] at hx'; split at hx'
+        · cases hx'
+        · obtain ⟨p, st, _, _, _, hd, _⟩ := HubSt.bondR_spec _ _ _ _ _ _ hx'
+          obtain ⟨_, reg, vs, _, _, hall⟩ := C02_bond_delegated_in_full s.hub s1.hubEnv p subs hd
+          intro x hx''
+          obtain ⟨v, a, he, _, _⟩ := hall x hx''
+          subst he; rfl
+      exact ⟨dl, ⟨by rw [cfg.2.dispatcher]; exact w.hubDisp, by rw [d]; exact w.dispHub, by rw [d]; exact w.dispRw⟩,
+        b, t, g, Or.inr ⟨s1, sender, funds, rfl, hmv, h1.hub, hx'⟩⟩
+    | _ => simp [Flow] at hf
+  | bsei s1 sender funds tm heq _ _ _ _ _ _ _ => subst heq; simp [Flow] at hf
+  | stsei blk sender funds tm heq _ _ _ _ _ _ => subst heq; simp [Flow] at hf
+  | reward s1 sender funds rm heq h1 _ _ hx' h b t d g =>
+    subst heq
+    cases rm with
+    | updateGlobalIndex =>
+      have hms : subs = [] := (C14_update_records_bank _ _ _ _ _ _ _ _ hx').1
+      refine ⟨(by rw [hms]; intro x hx''; cases hx''), ⟨by rw [h]; exact w.hubDisp, by rw [d]; exact w.dispHub,
+        by rw [d]; exact w.dispRw⟩, b, t, g, Or.inl h⟩
+    | _ => simp [Flow] at hf
+  | disp env sender funds dm heq hx' h b t r g =>
+    subst heq
+    cases dm with
+    | swap a bb =>
+      -- the dispatcher's state is untouched; it emits swap-contract calls sent by itself
+      have sb := dispExec_sentBy _ _ _ _ _ _ _ hx'
+      have cs : s'.disp = s.disp := by
+        simp only [dispExec] at hx'
+        exc_norm at hx'
+        repeat' (split at hx' <;> try (first | (cases hx'; done) | contradiction))
+        all_goals (injection hx' with hx'; injection hx' with e1 _; exact e1.symm)
+      refine ⟨?_, ⟨by rw [h]; exact w.hubDisp, by rw [cs]; exact w.dispHub, by rw [cs]; exact w.dispRw⟩, b, t, g, Or.inl h⟩
+      have shape := dispSwap_shape _ _ _ _ _ _ _ _ hx'
+      intro x hx''
+      obtain ⟨tg, dn, am, dd, fs, he⟩ := shape x hx''
+      subst he; rfl
+    | dispatch =>
+      have cs : s'.disp = s.disp := by
+        have hx2 := hx'
+        simp only [dispExec] at hx2; exc_norm at hx2
+        split at hx2
+        · cases hx2
+        · split at hx2
+          · cases hx2
+          · injection hx2 with hx2; injection hx2 with e1 _; exact e1.symm
+      refine ⟨?_, ⟨by rw [h]; exact w.hubDisp, by rw [cs]; exact w.dispHub, by rw [cs]; exact w.dispRw⟩, b, t, g, Or.inl h⟩
+      simp only [dispExec] at hx'; exc_norm at hx'
+      split at hx'
+      · cases hx'
+      · split at hx'
+        · cases hx'
+        · rename_i ms' hd
+          injection hx' with hx'; injection hx' with _ h2; subst h2
+          unfold dispatchMsgs at hd
+          split at hd
+          · cases hd
+          · rename_i m1 h1
+            split at hd
+            · cases hd
+            · rename_i m2 h2
+              injection hd with hd; subst hd
+              refine AllFlow.append (AllFlow.append ((coinMsgs_flow s.disp _ w.dispHub).1 m1 h1)
+                ((coinMsgs_flow s.disp _ w.dispHub).2 m2 h2)) ?_
+              intro x hx''; simp at hx''; subst hx''; simp [Flow, w.dispRw]
+    | _ => simp [Flow] at hf
+  | reg s1 sender funds rm heq _ _ _ _ _ _ _ _ _ => subst heq; simp [Flow] at hf
 
 end Krp
